@@ -35,9 +35,11 @@ impl ParseTree
 	) -> Self
 	{
 		// For nodes, we want to avoid the realloc at all costs.
-		// TODO so 1 is too small, 2 is very likely true but a bit of a magic number
+		// No production pushes more than 4 nodes per token that it takes,
+		// and `x + x + x + ...` needs 4 nodes per token, so 4 is both
+		// sufficient and necessary.
 		let num_tokens =
-			MAX_PARSE_NODE_CONTEXT + 2 * tokens.base_tokens().len();
+			MAX_PARSE_NODE_CONTEXT + 4 * tokens.base_tokens().len();
 		let nodes = Vec::with_capacity(num_tokens);
 
 		// The caller knows how many declarations there can be.
